@@ -18,7 +18,7 @@ Assertions on every path (function `judge`):
 from typing import List
 
 from vlib.shim import *  # noqa: F401,F403
-from vlib.h import harness, tier, shard
+from vlib.h import excluded, harness, tier, shard
 from vlib import kf
 from vlib.stubs.fakesocket import FakeRawSocket, make_provider, drain
 
@@ -527,3 +527,61 @@ def accept_legal(npc: int, cid0: int, cid1: int, res: int, a: int, b: int, c: in
     v = legal_assoc(which, npc, 2 * cid0 + 1, 2 * cid1 + 1, res, a, b, c, f, g, extra)
     data = L.encode_pdu(v)
     return judge(receive(data, True, len(data)), must_accept=L.EVENT_OF[which])
+
+
+# ---------------------------------------------------------------------------------------------
+# 6. items nested inside items: the decoder recurses once per level (no level is "too deep" to classify)
+# ---------------------------------------------------------------------------------------------
+_RQ_FIXED = (b"\x00\x01\x00\x00" + b"ANY-SCP         " + b"ECHOSCU         " + bytes(32))
+
+
+def _nested(depth, item_type, inner):
+    """`depth` items of `item_type` wrapped around the innermost bytes `inner` (lengths correct at every level)."""
+    body = inner
+    for _ in range(depth):
+        head = 4 if item_type != 0x50 else 0
+        fill = b"\x01\x00\x00\x00" if head else b""        # presentation-context items: id, reserved bytes
+        body = bytes([item_type, 0]) + L.u16(len(fill) + len(body)) + fill + body
+    return body
+
+
+DEPTHS = tier([1, 3, 40, 100, 400, 700], [1, 2, 3, 10, 40, 100, 150, 300, 400, 700, 1500])
+KF_NEST = "C02-deep-nesting-reencode"
+UNSTABLE_ZONE = (300, 400)      # shards in the region of the listed finding (accepted, but encode() exceeds the recursion limit)
+
+
+@harness(
+    "C02", timeout=(120, 600),
+    shards=[{"depth": d, "itype": t} for d in DEPTHS for t in (0x50, 0x20)],
+    functions=["dul:DULServiceProvider._read_pdu_data", "dul:DULServiceProvider._decode_pdu", "pdu:PDU._generate_items",
+               "pdu_items:PDUItem._generate_items", "pdu_items:UserInformationItem.decode",
+               "pdu_items:PresentationContextItemRQ.decode"],
+    bounds="A-ASSOCIATE-RQ whose variable part is a User Information item (or a Presentation Context item) nested inside "
+           "itself `depth` times (shard: 1 .. 400, thorough .. 700; every length field correct) around 0..2 arbitrary bytes",
+    stubs=["as `header`"],
+    outside="nesting deeper than the largest shard (a 64 KiB item allows ~16000 levels)",
+    findings=[KF_NEST],
+)
+def nested_items(inner: bytes, closed: bool) -> bool:
+    """
+    pre: len(inner) <= 2
+    post: _ == True
+    """
+    depth, itype = shard("depth", 3), shard("itype", 0x50)
+    inner = fixlen(inner)
+    with untraced():
+        pass
+    var = _nested(depth, itype, inner)
+    body = _RQ_FIXED + var
+    data = b"\x01\x00" + L.u32(len(body)) + body
+    res = receive(data, closed)
+    if res is not None and excluded(KF_NEST) and depth in UNSTABLE_ZONE:
+        # listed finding: only the stability clause is waived - still: nothing escapes, exactly one event, and a PDU
+        # event comes with exactly one PDU of its class
+        events, pdus = res
+        if len(events) != 1:
+            return False
+        if events[0] in ("Evt17", "Evt19"):
+            return len(pdus) == 0
+        return len(pdus) == 1 and type(pdus[0]) is PDU_EVENTS.get(events[0])
+    return judge(res)
